@@ -104,14 +104,14 @@ theorem merge_grouping_independent (a b c : Ctx.Ctx) (k0 : String) (rest : List 
     orders show every task the same leaf whenever its publishers have a causally latest one (re-export of
     C05Causal.visible_order_independent) -/
 theorem published_data_order_independent (h1 h2 : List Hist.Task)
-    (s : Mistral.Props.C05Causal.SameUpToOrder h1 h2)
+    (s : Hist.SameUpToOrder h1 h2)
     (k0 : String) (rest : List String) (hk : k0 ≠ "__task_execution")
-    (hs : Mistral.Props.C05Causal.StableHist k0 rest h1)
+    (hs : Hist.StableHist k0 rest h1)
     (i : Nat) (r1 r2 : Hist.Row) (hr1 : (Hist.runRows h1)[i]? = some r1) (hr2 : (Hist.runRows h2)[i]? = some r2)
-    (qs : Nat) (ts : Hist.Task) (hq : Mistral.Props.C05Causal.Anc h1 qs i) (hts : h1[qs]? = some ts)
-    (hp : Mistral.Props.C05Causal.Publishes k0 ts)
-    (hmax : ∀ q' t', Mistral.Props.C05Causal.Anc h1 q' i → h1[q']? = some t' →
-      Mistral.Props.C05Causal.Publishes k0 t' → q' = qs ∨ Mistral.Props.C05Causal.Anc h1 q' qs) :
+    (qs : Nat) (ts : Hist.Task) (hq : Hist.Anc h1 qs i) (hts : h1[qs]? = some ts)
+    (hp : Hist.Publishes k0 ts)
+    (hmax : ∀ q' t', Hist.Anc h1 q' i → h1[q']? = some t' →
+      Hist.Publishes k0 t' → q' = qs ∨ Hist.Anc h1 q' qs) :
     Hist.leafAt r1.inb.data k0 rest = Hist.leafAt r2.inb.data k0 rest :=
   Mistral.Props.C05Causal.visible_order_independent h1 h2 s k0 rest hk hs i r1 r2 hr1 hr2 qs ts hq hts hp hmax
 
